@@ -129,8 +129,12 @@ def generate(rng, tier="quick"):
     steps += [{"op": "deliver", "src": 3, "dst": 2},
               {"op": "deliver", "src": 3, "dst": 0},
               {"op": "deliver", "src": 3, "dst": 1, "fault": {"kind": "reflect", "label": acc2}}]
-    return {"property": PROP, "config": {"psets": psets, "nodes": nodes}, "steps": steps,
-            "intent": {"saved": cls, "restore_as": cls2, "pdiff": label}}
+    cfg = {"psets": psets, "nodes": nodes}
+    eph = rng.random() < 0.35
+    if eph:
+        cfg["ephemeral_params"] = True      # parameter-set objects are built per session and freed with it
+    return {"property": PROP, "config": cfg, "steps": steps,
+            "intent": {"saved": cls, "restore_as": cls2, "pdiff": label, "ephemeral": eph}}
 
 
 def param_difference(w, a, b, cls):
